@@ -565,6 +565,32 @@ def real_attr_state(db):
                         'reverseColumns': list(getattr(a, 'reverse_columns', None) or []), 'table': getattr(a, 'table', None)})
     return out
 
+def real_logs(db):
+    """what the entity model says is stored where (from the attributes, not from db.schema), in processing order"""
+    placed = []; linked = []
+    for entity in sorted(db.entities.values(), key=lambda e: e._id_):
+        for a in entity._new_attrs_:
+            r = a.reverse
+            if a.is_collection:
+                if not r.is_collection: continue
+                sym = r is a
+                pkc = list(entity._pk_columns_)
+                linked.append({'entity': entity.__name__, 'attr': a.name, 'child': a.table, 'cols': list(r.columns), 'parent': entity._table_, 'parentCols': pkc})
+                if sym: linked.append({'entity': entity.__name__, 'attr': a.name, 'child': a.table, 'cols': list(a.reverse_columns), 'parent': entity._table_, 'parentCols': pkc})
+                n1, n2 = entity.__name__, r.entity.__name__
+                if n1 > n2 or (entity is r.entity and a.name > r.name): continue
+                if sym: cols = list(a.columns) + list(a.reverse_columns)
+                elif entity is r.entity: cols = list(a.columns) + list(r.columns)
+                else: cols = list(r.columns) + list(a.columns)
+                placed.append({'table': a.table, 'entity': entity.__name__, 'attr': a.name, 'cols': cols, 'notNull': True})
+            else:
+                if a.columns:
+                    placed.append({'table': entity._table_, 'entity': entity.__name__, 'attr': a.name, 'cols': list(a.columns), 'notNull': not a.nullable})
+                    if r:
+                        linked.append({'entity': entity.__name__, 'attr': a.name, 'child': entity._table_, 'cols': list(a.columns),
+                                       'parent': r.entity._table_, 'parentCols': list(r.entity._pk_columns_)})
+    return placed, linked
+
 def run_real_mapping(src, dialect, sqlite_real=False):
     """build the diagram, extract declarations, run the real generate_mapping. Returns dict(decls, linked, outcome, db)"""
     if sqlite_real:
@@ -581,6 +607,7 @@ def run_real_mapping(src, dialect, sqlite_real=False):
         Database.generate_mapping(db, create_tables=False, check_tables=False)
         res['outcome'] = {'ok': real_schema_json(db.schema)}
         res['attrs'] = real_attr_state(db)
+        res['log_placed'], res['log_linked'] = real_logs(db)
     except RecursionError as e:
         res['outcome'] = {'error': 'RecursionError'}
     except Exception as e:
@@ -920,6 +947,12 @@ def diagrams(ctx):
                     ma = [{k: x[k] for k in ('entity', 'attr', 'columns', 'reverseColumns', 'table')} for x in m['attrs']]
                     d = first_diff(ma, res['attrs'], 'attrs')
                     if d: ctx.divergence('attr.columns / attr.table differ at ' + d, [dialect, src])
+                    # the logs the theorems C26_columns / C26_foreign_keys speak about vs the entity model of the real code
+                    d = first_diff([p for p in m['placed'] if p['cols']], res['log_placed'], 'placed')
+                    if d: ctx.divergence('column placement log differs from attr.columns / attr.nullable at ' + d, [dialect, src])
+                    d = first_diff(m['linked'], res['log_linked'], 'linked')
+                    if d: ctx.divergence('foreign-key log differs from the relationship attributes at ' + d, [dialect, src])
+                    ctx.count('log:placed', len(res['log_placed'])); ctx.count('log:linked', len(res['log_linked']))
                     # ghost provenance tags: `explicit` only for names that really are user-given
                     explicit = explicit_names(res['decls'])
                     for t in m['ok']['tables']:
